@@ -399,7 +399,7 @@ pub fn run(rep: &mut Report) {
             p.traces += 1;
             p.outcome(format!("{:?}", pareto(a, b)));
             if let Some((s, d)) = check_mo_pair(a, b) {
-                p.violate(s, d, json!({"kind":"mpair","a":a,"b":b.iter().map(|x| if x.is_infinite() {json!("inf")} else {json!(x)}).collect::<Vec<_>>()}));
+                p.violate(s, d, json!({"kind":"mpair","a":a.iter().map(|x| format!("{:016x}", x.to_bits())).collect::<Vec<_>>(),"b":b.iter().map(|x| format!("{:016x}", x.to_bits())).collect::<Vec<_>>()}));
             }
         }
     }
@@ -475,10 +475,8 @@ fn replay1(case: &Value) -> Result<Option<(String, String)>, String> {
             })
         }
         "mpair" => {
-            let f = |v: &Value| -> Vec<f64> {
-                v.as_array().unwrap().iter().map(|x| if x.is_string() { f64::INFINITY } else { x.as_f64().unwrap() }).collect()
-            };
-            Ok(check_mo_pair(&f(&case["a"]), &f(&case["b"])))
+            let f = |v: &Value| -> Result<Vec<f64>, String> { v.as_array().ok_or("no vector")?.iter().map(|x| bits(x)).collect() };
+            Ok(check_mo_pair(&f(&case["a"])?, &f(&case["b"])?))
         }
         "mconstruct" => {
             let v: Vec<f64> = case["v"].as_array().ok_or("no v")?.iter().map(|x| bits(x)).collect::<Result<_, _>>()?;
